@@ -100,6 +100,10 @@ func (k *simKernel) Send(msg syscall.NetlinkMessage) (uint32, error) {
 	s := k.seq
 	k.sent = append(k.sent, clSent{Type: int(msg.Header.Type), Flags: int(msg.Header.Flags), Seq: limbs(s),
 		Pid: limbs(msg.Header.Pid), Payload: bytesOf(msg.Data)})
+	if k.nreq < len(k.plan) && len(k.plan[k.nreq]) > 0 && k.plan[k.nreq][0].K == "sendfail" {
+		k.nreq++
+		return s, syscall.ENOBUFS // the request never reaches the kernel
+	}
 	if k.nreq < len(k.plan) {
 		for _, f := range k.plan[k.nreq] {
 			var fs uint32
@@ -779,7 +783,11 @@ func genClientScript(r *rand.Rand, trace, length int, profile string) *clScript 
 			if r.Intn(3) == 0 {
 				n = 2 + r.Intn(3)
 			}
-			sc.Ops = append(sc.Ops, clOp{Name: "Close", Mode: "wait", N: n, Plan: [][]simFrame{{ackFrame(0)}}})
+			cplan := [][]simFrame{{ackFrame(0)}}
+			if r.Intn(4) == 0 {
+				cplan = [][]simFrame{{{K: "sendfail", Rel: "own", Payload: []int{}}}} // the PID cannot be cleared: the socket is closed all the same
+			}
+			sc.Ops = append(sc.Ops, clOp{Name: "Close", Mode: "wait", N: n, Plan: cplan})
 		default:
 			// wait-mode commands are used on a socket with nothing outstanding (rarely otherwise)
 			if outstanding == 0 || r.Intn(15) == 0 {
